@@ -956,6 +956,7 @@ func (d *Data) aggregateBlockChanges(v dvid.VersionID, svmap *VCache, ch <-chan 
 			dvid.Errorf("max label change during block aggregation for %q: %v\n", d.DataName(), err)
 		}
 	}()
+	dvid.VerifPoint("labelmap.aggregateBlockChanges", uint64(len(labelset)))
 	if d.IndexedLabels {
 		for label := range labelset {
 			if err := ChangeLabelIndex(d, v, label, svChanges); err != nil {
@@ -963,6 +964,7 @@ func (d *Data) aggregateBlockChanges(v dvid.VersionID, svmap *VCache, ch <-chan 
 			}
 		}
 	}
+	dvid.VerifPoint("labelmap.aggregateBlockChanges.done", uint64(len(labelset)))
 }
 
 type labelBlock struct {
